@@ -85,14 +85,20 @@ def main():
                     continue
             light = [h for h in ghs if not h.heavy]
             heavy = [h for h in ghs if h.heavy]
-            for batch, jobs in ((light, min(NCPU, 12)), (heavy, 4)):
+            # the kani driver keeps every harness's CBMC output in memory: one invocation over 40 harnesses at -j 12 was seen at 49 GB
+            # and took the whole machine down; so at most CHUNK harnesses per invocation (memory is returned between invocations)
+            CHUNK = int(os.environ.get("VERIF_KANI_CHUNK", "10"))
+            plan = [(light[i:i + CHUNK], min(NCPU, 8), False) for i in range(0, len(light), CHUNK)] + [(heavy[i:i + 4], 4, True) for i in range(0, len(heavy), 4)]
+            for chunk_no, (batch, jobs, is_heavy) in enumerate(plan):
                 if not batch:
                     continue
                 tmo = max(h.timeout for h in batch)
                 log("[%s] kani %s/%s: %d harnesses, -j %d" % (prop, profile, features, len(batch), jobs))
                 res, compiled, out, wall = K.run(dest, [h.qualified() for h in batch], features, jobs, tmo)
+                log("    chunk %d done in %.0fs; peak RSS %s" % (chunk_no, wall, ", ".join("%s %.1f GB" % (k, v / 1048576.0) for k, v in sorted(K.PEAK.items()))))
+                K.PEAK.clear()
                 try:
-                    write(os.path.join(VERIF, "logs", "%s-%s-%s-%s.log" % (prop, profile, features, "heavy" if batch is heavy else "light")), out)
+                    write(os.path.join(VERIF, "logs", "%s-%s-%s-%s-%d.log" % (prop, profile, features, "heavy" if is_heavy else "light", chunk_no)), out)
                 except Exception:
                     pass
                 if not compiled:
